@@ -707,7 +707,7 @@ def run_history(steps, extra_ops=None):
                                     'ok %d %s' % (len(want), vc.bytes_hex(want)))
                 if 'same_as' in st and outcomes[st['same_as']] != out:
                     return fail(i, 'same-call-different-outcome', 'the same marshal call (step %d) had another outcome'
-                                % st['same_as'], out, outcomes[st['same_as']])
+                                % (st['same_as'] + 1), out, outcomes[st['same_as']])
                 continue
             expected = vc.from_line(st['expected'])
             if r[0] != 'ok':
@@ -747,21 +747,147 @@ def run_history(steps, extra_ops=None):
     return None, pairs
 
 
-def report_history(ctx, stream, name, steps, pairs_out=None, extra_ops=None, prefix='C01 round trip'):
-    """Run one history, count it, report the first failing step with the history up to it as the (replayable) input."""
-    ctx.case(stream, sample={'history': name, 'first': {k: v for k, v in steps[0].items() if k in ('op', 'sig', 'values', 'cls')},
-                             'steps': len(steps)})
-    ctx.stat('history:%s' % name.split(':')[0])
-    ctx.stat('history-steps', len(steps))
-    ctx.impl_trace(len(steps))
-    bad, pairs = run_history(steps, extra_ops)
-    if pairs_out is not None:
-        pairs_out.extend(pairs)
-    if bad:
+def history_failure(histories):
+    """First failing judged step of a sequence of histories (each with its own shared list and step numbering):
+    None or the failure of `run_history` + 'history' (index).  Used in-process and by the fresh-process re-run."""
+    for h, steps in enumerate(histories):
+        bad, _ = run_history(steps)
+        if bad:
+            bad['history'] = h
+            return bad
+    return None
+
+
+def fresh_process_failure(ctx, module, histories):
+    """Run the histories in a NEW Python process on the tree under test (nothing of this process's state is there) and
+    return the key of the first failure, or None.  Only called after a violation has been seen."""
+    import json
+    import subprocess
+    import sys
+    from vlib import ctx as ctxmod
+    code = ('import sys, json\n'
+            'sys.path.insert(0, %r)\n'
+            'from vlib import ctx as c\n'
+            'c.use_repo(%r)\n'
+            'from harness import %s as h\n'
+            'bad = h.history_failure(json.load(sys.stdin))\n'
+            'print("KEY " + json.dumps(bad["key"] if bad else None))\n' % (ctxmod.VERIF, ctx.repo, module))
+    try:
+        p = subprocess.run([sys.executable, '-c', code], input=json.dumps(histories).encode(), stdout=subprocess.PIPE,
+                           stderr=subprocess.PIPE, timeout=120)
+    except Exception:      # noqa: BLE001
+        return None
+    for ln in p.stdout.decode('utf-8', 'replace').splitlines():
+        if ln.startswith('KEY '):
+            return json.loads(ln[4:])
+    return None
+
+
+def _ddmin(units, test, budget):
+    """Delta debugging over a list: a small sublist (order kept) on which `test` still holds; at most `budget` tests."""
+    n = 2
+    while len(units) >= 2 and budget > 0:
+        size = -(-len(units) // n)
+        parts = [list(range(i, min(i + size, len(units)))) for i in range(0, len(units), size)]
+        found = None
+        for part in parts:
+            if budget <= 0:
+                break
+            budget -= 1
+            cand = [units[i] for i in part]
+            if test(cand):
+                found, n = cand, 2
+                break
+        if found is None and len(parts) > 2:
+            for part in parts:
+                if budget <= 0:
+                    break
+                budget -= 1
+                drop = set(part)
+                cand = [u for i, u in enumerate(units) if i not in drop]
+                if test(cand):
+                    found, n = cand, max(n - 1, 2)
+                    break
+        if found is not None:
+            units = found
+        elif n >= len(units):
+            break
+        else:
+            n = min(len(units), n * 2)
+    return units
+
+
+class Histories:
+    """One stream of histories.  Every history is run and judged; a violation is reported with a replay input that fails
+    again in a FRESH process: the failing history alone if that is enough, otherwise together with the (delta-debugged)
+    earlier histories of this stream whose leftovers it needs."""
+
+    def __init__(self, ctx, stream, module='c01', extra_ops=None, prefix='C01 round trip'):
+        self.ctx, self.stream, self.module, self.extra_ops, self.prefix = ctx, stream, module, extra_ops, prefix
+        self.done, self.reported, self.pairs = [], {}, []
+
+    def run(self, name, steps):
+        ctx = self.ctx
+        ctx.case(self.stream, sample={'history': name, 'steps': len(steps),
+                                      'first': {k: v for k, v in steps[0].items() if k in ('op', 'sig', 'values', 'cls')}})
+        ctx.stat('history:%s' % name.split(':')[0])
+        ctx.stat('history-steps', len(steps))
+        ctx.impl_trace(len(steps))
+        bad, pairs = run_history(steps, self.extra_ops)
+        self.pairs.extend(pairs)
+        if not bad:
+            self.done.append(steps)
+            return None
         i = bad['step']
-        ctx.violation('history-' + bad['key'], '%s, step %d of a history (%s): %s' % (prefix, i + 1, name, bad['what']),
-                      inp={'history': steps[:i + 1], 'name': name}, observed=bad['observed'], expected=bad['expected'])
-    return bad
+        ran = steps[:i + 1]
+        key = 'history-' + bad['key']
+        what = '%s, step %d of a history (%s): %s' % (self.prefix, i + 1, name, bad['what'])
+        if key in self.reported:
+            ctx.violation(key, what, inp=self.reported[key])
+        else:
+            inp = self.replayable(key, bad['key'], name, ran)
+            self.reported[key] = inp
+            ctx.violation(key, what, inp=inp, observed=bad['observed'], expected=bad['expected'])
+        self.done.append(ran)
+        return bad
+
+    def replayable(self, key, raw_key, name, ran):
+        ctx = self.ctx
+
+        def test(earlier):
+            return fresh_process_failure(ctx, self.module, earlier + [ran]) == raw_key
+        if test([]):
+            ctx.stat('history-violation:fails-alone-in-a-fresh-process')
+            if len(ran) > 2 and not any('same_as' in st for st in ran):      # drop the steps the failure does not need
+                keep = _ddmin(ran[:-1], lambda steps: fresh_process_failure(ctx, self.module, [steps + ran[-1:]]) == raw_key, 25)
+                if fresh_process_failure(ctx, self.module, [ran[-1:]]) == raw_key:
+                    keep = []
+                return {'histories': [keep + ran[-1:]], 'name': name, 'steps_dropped': len(ran) - 1 - len(keep)}
+            return {'histories': [ran], 'name': name}
+        if not self.done or not test(list(self.done)):
+            ctx.stat('history-violation:not-reproduced-in-a-fresh-process')
+            return {'histories': list(self.done) + [ran], 'name': name,
+                    'note': 'failed in the checking process after everything that ran before it (corpus and earlier histories); '
+                            'these histories alone did not fail again in a fresh process'}
+        need = _ddmin(list(self.done), test, 40)
+        ctx.stat('history-violation:needs-earlier-histories')
+        return {'histories': need + [ran], 'name': name,
+                'note': 'the last history fails only after the %d earlier one(s) (found by re-running in fresh processes)' % len(need)}
+
+
+def replay_histories(ctx, stream, inp, module='c01', extra_ops=None, prefix='C01 round trip'):
+    hs = Histories(ctx, stream, module, extra_ops, prefix)
+    histories = inp['histories'] if 'histories' in inp else [inp['history']]
+    for k, steps in enumerate(histories):
+        ctx.case(stream, sample={'history': k, 'steps': len(steps)})
+        bad, pairs = run_history(steps, extra_ops)
+        hs.pairs.extend(pairs)
+        if bad:
+            ctx.violation('history-' + bad['key'], '%s, history %d of %d, step %d: %s'
+                          % (prefix, k + 1, len(histories), bad['step'] + 1, bad['what']), inp=inp,
+                          observed=bad['observed'], expected=bad['expected'])
+            break
+    check_pairs(ctx, stream, hs.pairs)
 
 
 def check_pairs(ctx, stream, pairs):
@@ -857,7 +983,9 @@ def gen_suffix_history(rng, used, pool, want_fd):
         st0, svs = firsts[nm]
         off, le = rng.randrange(16), rng.random() < 0.5
         r = rng.random()
-        if r < 0.4:                                # the same Python values at another place
+        if r < 0.15:                               # the identical call once more
+            steps.append(dict(st0))
+        elif r < 0.4:                              # the same Python values at another place
             steps.append(dict(st0, off=off, le=le))
         elif r < 0.6 and 'h' in st0['sig']:        # the same bytes, other descriptor objects, each time a list of its own
             a = dict(st0, fds='L 0')
@@ -919,27 +1047,25 @@ def run_histories(ctx, pool):
     the signatures of a history are met for the first time in this process as far as possible."""
     import random
     rng = random.Random(repr((ctx.seed, 'C01', 'history', ctx.widen)))
-    used, pairs = set(), []
+    used = set()
+    hs = Histories(ctx, 'codec-history')
     for _, case in ctx.corpus():           # signatures the corpus has already used in this process
         inp = case.get('input', case)
         if isinstance(inp, dict) and isinstance(inp.get('sig'), str):
             used.add(inp['sig'])
+    used.update(BURST_VALID)
+    for n_fail in ([40, 130] if ctx.tier == 'quick' else [1, 7, 40, 130, 400, 1100]):
+        hs.run(*gen_burst_history(rng, n_fail))
     n = ctx.scale(quick=120, thorough=3000)
     for i in range(n):
-        name, steps = gen_suffix_history(rng, used, pool, want_fd=(i % 3 == 2))
-        report_history(ctx, 'codec-history', name, steps, pairs)
+        hs.run(*gen_suffix_history(rng, used, pool, want_fd=(i % 3 == 2)))
     for sig in OMITTED_SIGS:
-        name, steps = gen_omitted_history(rng, sig)
-        report_history(ctx, 'codec-history', name, steps, pairs)
+        hs.run(*gen_omitted_history(rng, sig))
     for i in range(ctx.scale(quick=10, thorough=200)):
         S, _ = gv.suffix_shapes(rng, used, want_fd=True)
-        name, steps = gen_omitted_history(rng, gv.render_all(S))
-        report_history(ctx, 'codec-history', name, steps, pairs)
-    for n_fail in ([40, 130] if ctx.tier == 'quick' else [1, 7, 40, 130, 400, 1100]):
-        name, steps = gen_burst_history(rng, n_fail)
-        report_history(ctx, 'codec-history', name, steps, pairs)
-    ctx.note('codec-history: %d marshal / unmarshal calls inside histories compared with the (history-free) model' % len(pairs))
-    check_pairs(ctx, 'codec-history', pairs)
+        hs.run(*gen_omitted_history(rng, gv.render_all(S)))
+    ctx.note('codec-history: %d marshal / unmarshal calls inside histories compared with the (history-free) model' % len(hs.pairs))
+    check_pairs(ctx, 'codec-history', hs.pairs)
 
 
 def run(ctx):
@@ -1092,10 +1218,8 @@ def replay_case(ctx, case, stream):
     """A corpus / replay input: {'sig', 'values' (line), 'off', 'le'} (round trip) or {'op': ..., 'line': ...}."""
     register()
     inp = case.get('input', case)
-    if 'history' in inp:
-        pairs = []
-        report_history(ctx, stream, inp.get('name', 'replay'), inp['history'], pairs)
-        check_pairs(ctx, stream, pairs)
+    if 'history' in inp or 'histories' in inp:
+        replay_histories(ctx, stream, inp)
         return
     if 'line' in inp:
         toks = inp['line'].split()
